@@ -120,6 +120,17 @@ func Spec(prop, tier string) *core.CheckSpec {
 			Stub:   []string{"the instant and order at which Go finalizers of pool values are delivered (simulated collector behind the luagc setFinalizer seam); reachability itself is decided by the real Go GC"},
 			Assume: []string{"a value the Go GC never proves unreachable simply stays un-delivered until close (the oracle does not depend on limbo membership)"},
 		}
+	case "C08":
+		return &core.CheckSpec{
+			Property: "C08", Level: "exploration",
+			Rule: "every Go function reachable from the global environment, package.loaded, metatables of standard values and values returned by library functions (iterators, wrappers, context objects) x all 15 non-empty subsets of required flags x 2 sampled argument tuples (paths and shell commands aimed at a private sentinel directory holding a secret) x a sampled call spelling (direct, pcall, __index metamethod, coroutine.wrap). Oracle: undeclared flag => 'missing flags' error, context live, sentinel untouched; iosafe declared and required => sentinel byte-identical and the secret never returned. One run covers one function; the function x flag-subset grid is exhaustive once runs >= number of functions x a small factor (counted)",
+			Batches: []core.Batch{
+				{Engine: "flags", Mode: "", Runs: n(2500, 200000), Millis: ms(40000, 600000), Chunk: 400, HangS: 60},
+			},
+			Real:   realAll,
+			Stub:   []string{"the operating system is real; effects are observed on a private sentinel directory (snapshot before/after every call)"},
+			Assume: []string{"read-only access whose result is not returned, and network access, are not observable by this oracle (the strace seam of the design was not built)"},
+		}
 	case "C20":
 		return &core.CheckSpec{
 			Property: "C20", Level: "exploration",
